@@ -389,6 +389,21 @@ def check_greeting(f, rep):
                     lin = linear(end) if end else {}
                     if lin.get(1) == 12 and any(k != 1 and v == 1 for k, v in lin.items()):
                         okr = True
+            # the same range as a slice of a tail: `data[12..][..len(mechanism)]`
+            for e in rng:
+                r = e.args[1]
+                recv = e.args[0]
+                while isinstance(recv, tuple) and recv and recv[0] in ("ref", "deref"):
+                    recv = recv[1]
+                if r[0] == "agg" and (r[2] or "").endswith("RangeTo") and len(r[4]) == 1 and isinstance(recv, tuple) and recv and \
+                        recv[0] in ("call", "pure") and short(recv[1]) in ("index_mut", "index") and len(recv[2]) > 1:
+                    fr = recv[2][1]
+                    while isinstance(fr, tuple) and fr and fr[0] == "ref":
+                        fr = fr[1]
+                    lin = linear(r[4][0])
+                    if fr[0] == "agg" and (fr[2] or "").endswith("RangeFrom") and fr[4] and fr[4][0] == ("int", 12) and \
+                            not lin.get(1) and any(k != 1 and v == 1 for k, v in lin.items()):
+                        okr = True
             rep.check(okr, "R01.6", "R01.6|%s|mechanism-range" % b.path, "mechanism copied to [12 .. 12+len(mechanism)]", b.loc())
             # whole array appended once
             outw = [e for e in p.events if e.kind == "call" and short(e.name) in BODY_WRITES]
@@ -436,6 +451,17 @@ def check_greeting(f, rep):
                 a = e.args[1][4]
                 if len(a) == 2 and a[0][0] == "int" and a[1][0] == "int":
                     r = (a[0][1], a[1][1])
+                # `value[12..][..20]`: the same bytes as a slice of a tail
+                recv = e.args[0]
+                while isinstance(recv, tuple) and recv and recv[0] in ("ref", "deref"):
+                    recv = recv[1]
+                if len(a) == 1 and a[0][0] == "int" and (e.args[1][2] or "").endswith("RangeTo") and isinstance(recv, tuple) and recv and \
+                        recv[0] in ("call", "pure") and short(recv[1]) == "index" and len(recv[2]) > 1:
+                    fr = recv[2][1]
+                    while isinstance(fr, tuple) and fr and fr[0] == "ref":
+                        fr = fr[1]
+                    if fr[0] == "agg" and (fr[2] or "").endswith("RangeFrom") and len(fr[4]) == 1 and fr[4][0][0] == "int":
+                        r = (fr[4][0][1], fr[4][0][1] + a[0][1])
             rep.check(idxs == {0, 9, 10, 11, 32}, "R01.6", "R01.6|%s|reader-offsets" % b.path,
                       "greeting parser reads bytes %s (writer/RFC: [0, 9, 10, 11, 32])" % sorted(idxs), b.loc())
             rep.check(r == (12, 32), "R01.6", "R01.6|%s|reader-mechanism-range" % b.path, "mechanism parsed from bytes %s (RFC: 12..32)" % (r,), b.loc())
@@ -494,7 +520,9 @@ def check_decoder(f, rep):
             for ev in p.events:
                 if ev.kind == "store" and ev.place.endswith("." + roles_["counter"]) and ev.value in (("int", 8), ("int", 1)):
                     # only the width announced right after the flags byte: the path also read the flags in this step
-                    if any(e2.kind == "call" and short(e2.name) == "get_u8" for e2 in p.events[:p.events.index(ev)]) and p.abstract_in[0][3] != roles_["enum"]["variants"][-1]["name"]:
+                    # (the flags byte consumed as `get_u8()`, or read in place and skipped with `advance(1)`)
+                    if any(e2.kind == "call" and (short(e2.name) == "get_u8" or (short(e2.name) == "advance" and len(e2.args or ()) > 1 and strip_casts(e2.args[1]) == ("int", 1)))
+                           for e2 in p.events[:p.events.index(ev)]) and p.abstract_in[0][3] != roles_["enum"]["variants"][-1]["name"]:
                         if any(x[0] == "flag" or mask_of(x) is not None for (x, c2, _, _) in p.conds):
                             effs.add("wait%d" % ev.value[1])
                 if ev.kind == "call" and ev.extra != "inlined":
